@@ -566,31 +566,46 @@ class AttributeCollection(MutableMapping[int, Attribute]):
             self.add(cached, key)
             return
 
-        len2 = len(as2path.as_seq)
-        len4 = len(as4path.as_seq)
+        # RFC 6793 section 4.2.3: keep the segments, and their order, as they were sent.
+        # Confederation segments are not valid in AS4_PATH and are discarded; for the length
+        # comparison a SEQUENCE counts for its AS numbers, a SET for one, confederation
+        # segments for none.
+        def _hops(segments: list[Any]) -> int:
+            return sum(len(seg) if isinstance(seg, SEQUENCE) else 1 for seg in segments if isinstance(seg, (SEQUENCE, SET)))
 
-        # RFC 4893 section 4.2.3
-        if len2 < len4:
-            as_seq = as2path.as_seq
+        as2_segments = list(as2path.aspath)
+        as4_segments = [seg for seg in as4path.aspath if isinstance(seg, (SEQUENCE, SET))]
+
+        missing = _hops(as2_segments) - _hops(as4_segments)
+
+        segments: list[Any] = []
+        if missing < 0:
+            # AS4_PATH is longer than AS_PATH: it must be ignored
+            segments = as2_segments
         else:
-            as_seq = as2path.as_seq[:-len4]
-            as_seq.extend(as4path.as_seq)
+            # take the leading part of AS_PATH so that the result has as many hops as AS_PATH had
+            for seg in as2_segments:
+                if not isinstance(seg, (SEQUENCE, SET)):
+                    # confederation segment: kept when leading or adjacent to what is kept
+                    if missing > 0 or not segments:
+                        segments.append(seg)
+                        continue
+                    break
+                if missing <= 0:
+                    break
+                if isinstance(seg, SET):
+                    segments.append(seg)
+                    missing -= 1
+                else:
+                    segments.append(SEQUENCE(seg[:missing]))
+                    missing -= len(seg[:missing])
+            for seg in as4_segments:
+                # a SEQUENCE continuing a SEQUENCE is one segment
+                if segments and isinstance(seg, SEQUENCE) and type(segments[-1]) is SEQUENCE:
+                    segments[-1] = SEQUENCE(list(segments[-1]) + list(seg))
+                else:
+                    segments.append(seg)
 
-        len2 = len(as2path.as_set)
-        len4 = len(as4path.as_set)
-
-        if len2 < len4:
-            as_set = as4path.as_set
-        else:
-            as_set = as2path.as_set[:-len4]
-            as_set.extend(as4path.as_set)
-
-        # Build segments from merged ASN lists
-        segments: list[SET | SEQUENCE] = []
-        if as_seq:
-            segments.append(SEQUENCE(as_seq))
-        if as_set:
-            segments.append(SET(as_set))
         aspath = AS2Path.make_aspath(segments)
         self.add(aspath, key)
 
